@@ -11,6 +11,8 @@
 (*   {"op":<builder op>, args..., "seq":n, "res":"ok"|"refused"|"panic"}   *)
 (*   {"op":"build","q":[[names]..],"pq":[[lo,hi]..],"plat":[[p,a]..],      *)
 (*    "seq":n,"res":"ok"|"refused"|"noparse"|"panic","stage":s,            *)
+(*    (refused = build or serialise returned Err; noparse = the library    *)
+(*    does not parse what it serialised)                                   *)
 (*    "obs":{"bytes":[..],            the serialized manifest              *)
 (*           "files":[[id,hi,lo,prio]..], "tags":[{"name","ty","files",    *)
 (*           "count","q1"}..], "total":[hi,lo],    parse(bytes), projected *)
@@ -128,6 +130,34 @@ DevF19a(c, mm, o) ==
      /\ WithStrayMasks(mm, r)
      /\ FilesAgree(c, mm, r.files) /\ r.total = TotalSize(mm)
 
+(* Dev_F19b (size manifest): SizeManifestBuilder::add_entry takes any u64 and the serialiser writes
+   only the low esize_bytes bytes of it (4 in version 2), and only the low 40 bits of the version 2
+   total; neither build step refuses, so the serialized manifest carries other sizes than the builder
+   was given and the library's own parser rejects it (TotalSizeMismatch).  Guard: container kind
+   "size", some entry size does not fit the entry field or (version 2) the total does not fit 40 bits;
+   effect: the bytes hold exactly the truncated values, everything else as the model says, and the
+   re-parse fails. *)
+SzTrunc(p, w) ==
+  CASE w >= 6 -> p [] w = 5 -> <<p[1] % 65536, p[2]>> [] w = 4 -> <<p[1] % 256, p[2]>>
+    [] w = 3 -> <<0, p[2]>> [] w = 2 -> <<0, p[2] % 65536>> [] OTHER -> <<0, p[2] % 256>>
+EsWidth(c) == IF c.ver = 2 THEN 4 ELSE c.esb
+Oversize(c, mm) ==
+  \/ \E j \in 1..NFiles(mm) : SzTrunc(mm.files[j].sz, EsWidth(c)) # mm.files[j].sz
+  \/ c.ver = 2 /\ TotalSize(mm)[1] >= 65536
+DevF19b(c, mm, e) ==
+  /\ "F19b" \in KnownDeviations /\ c.kind = "size" /\ e.res = "noparse" /\ Oversize(c, mm)
+  /\ LET r == ReadManifest(e.obs.bytes) IN
+     /\ r.ok /\ r.exact /\ r.n = NFiles(mm) /\ Len(r.files) = NFiles(mm)
+     /\ \A j \in 1..NFiles(mm) : r.files[j].id = mm.files[j].id /\ r.files[j].sz = SzTrunc(mm.files[j].sz, EsWidth(c))
+     /\ r.total = (IF c.ver = 2 THEN SzTrunc(TotalSize(mm), 5) ELSE TotalSize(mm))
+     /\ Len(r.tags) = Len(mm.tags) /\ TagTriplesRd(r) = TagTriples(mm)
+
+\* A builder may decline to assemble what the container cannot express: a size wider than its field,
+\* or (size builder) a tag naming a position that no entry fills.  Any other refusal of a program that
+\* stays within the documented preconditions is a failure to maintain the masks (stale mask length
+\* after remove_file / add_file is reported by the builders' own validation as a refusal).
+MayRefuse(c, mm) == c.kind = "size" /\ (Oversize(c, mm) \/ Pending(mm) # {})
+
 \* ---- resynchronisation: the model as the parsed manifest shows it -------------------------------
 FromObs(mm, o) ==
   [files |-> [j \in 1..Len(o.files) |->
@@ -159,7 +189,9 @@ JudgeBuild(e, c, mm, sq) ==
              ELSE [good |-> FALSE, reason |-> reason, st |-> mm, unspec |-> TRUE, dev |-> ""]
         ELSE [good |-> FALSE, reason |-> reason] @@ keep
   IN IF ~seqok THEN bad("seq")
-     ELSE IF e.res = "refused" THEN [good |-> TRUE, reason |-> ""] @@ keep     \* no manifest was assembled: nothing to judge
+     ELSE IF e.res = "refused" THEN        \* no manifest was assembled; that needs a reason the model knows
+          IF MayRefuse(c, mm) THEN [good |-> TRUE, reason |-> ""] @@ keep ELSE bad("refused")
+     ELSE IF e.res = "noparse" /\ has /\ DevF19b(c, mm, e) THEN [good |-> TRUE, reason |-> "", dev |-> "F19b"] @@ keep
      ELSE IF e.res \in {"panic", "noparse"} \/ ~has THEN bad(e.res)
      ELSE LET bOk == BytesOk(c, mm, e.obs)
               dA  == ~bOk /\ DevF19a(c, mm, e.obs)
